@@ -23,6 +23,27 @@ def is_c(name):
     return name.endswith(".c") or name.endswith(".h")
 
 
+VALUE_OPTS = ("-R", "-f", "--format", "--cfile", "--hfile", "--filename")
+
+
+def split_argv(argv):
+    """(flags, positional paths) of an argv built by this engine: options that take a value consume it."""
+    flags, args = [], []
+    skip = False
+    for a in argv:
+        if skip:
+            flags.append(a)
+            skip = False
+        elif a in VALUE_OPTS:
+            flags.append(a)
+            skip = True
+        elif a.startswith("-") and len(a) > 1:
+            flags.append(a)
+        else:
+            args.append(a)
+    return flags, args
+
+
 class Model:
     """M-discover: independent walk of the model tree."""
 
@@ -210,8 +231,15 @@ class C15(Engine):
                 tree[".gitignore"] = gitignore_text(rules)
         if config == "toctou":
             op["faults"] = [{"seam": "open", "call": rng.randrange(0, 4), "kind": "enoent"}]
-        if rng.random() < 0.3:
+        # other options before (and after) the paths: none of them may change which files are selected
+        k = rng.random()
+        if k < 0.25:
             op["argv"] = ["--no-colors"] + op["argv"]
+        elif k < 0.45:
+            pre = rng.choice([["-R", "CheckDefine"], ["-R", "Whatever"], ["-o"], ["-f", "humanized"], ["-o", "-R", "CheckForbiddenSourceHeader"]])
+            op["argv"] = pre + op["argv"]
+        elif k < 0.55:
+            op["argv"] = op["argv"] + rng.choice([["-o"], ["--no-colors"], ["-R", "CheckDefine"]])
         return sc
 
     def scenarios(self):
@@ -230,11 +258,7 @@ class C15(Engine):
         op = sc["ops"][0]
         cwd = op.get("cwd", ".")
         M = Model(sc["tree"])
-        argv = list(op["argv"])
-        flags = []
-        args = []
-        for a in argv:
-            (flags if a.startswith("--") else args).append(a)
+        flags, args = split_argv(op["argv"])
         sel = []        # [(relpath, fidref)] with multiplicity, in no particular order
         rejected = []
         abort = False
